@@ -454,6 +454,29 @@ impl DcpsDomainParticipant {
         participant_handle: &InstanceHandle,
         name: String,
     ) -> DdsResult<()> {
+        let Some(index) = self
+            .domain_participant
+            .content_filtered_topic_list
+            .iter()
+            .position(|x| x.topic_name == name)
+        else {
+            return Err(DdsError::AlreadyDeleted);
+        };
+
+        for subscriber in self.domain_participant.user_defined_subscriber_list.iter() {
+            for reader in subscriber.data_reader_list.iter() {
+                if reader.topic_name == name {
+                    return Err(DdsError::PreconditionNotMet(
+                        "Content filtered topic still attached to some data reader".to_string(),
+                    ));
+                }
+            }
+        }
+
+        self.domain_participant
+            .content_filtered_topic_list
+            .remove(index);
+
         Ok(())
     }
 
@@ -574,6 +597,8 @@ impl DcpsDomainParticipant {
                 self.announce_deleted_data_reader(data_reader, runtime);
             }
         }
+
+        self.domain_participant.content_filtered_topic_list.clear();
 
         self.domain_participant
             .locally_created_topic_list
